@@ -39,7 +39,8 @@ RULE += (
 )
 MUST_HIT = ["millisecond_sweep", "negative_position_bps>1", "past_end_buffer", "past_end_raw", "past_end_wav", "past_end_stdin",
             "read_unopened", "index_error", "reopen_buffer", "read_all_remaining", "read_zero", "raw_named_pipe",
-            "second_source_on_same_stdin", "chunk_request_above_1MiB_short", "chunk_request_above_1MiB_met"]
+            "second_source_on_same_stdin", "chunk_request_above_1MiB_short", "chunk_request_above_1MiB_met",
+            "wav_with_chunk_after_the_audio"]
 ASSUMPTIONS = [
     "read(0) must return None (a chunk of min(0, remaining) = 0 samples, and never b'') and leave the cursor where it is",
     "what a raw/wav/stdin source does after close()+open() is not claimed by the statement: those kinds are never reopened",
@@ -74,6 +75,8 @@ class Interp:
                 self.src = BufferAudioSource(self.data, sr, sw, ch)
             elif self.kind in ("raw", "wav"):
                 c = dict(cfg, kind=self.kind + "_lazy", rawname=cfg.get("rawname", ".raw"))
+                if self.kind == "wav" and cfg.get("wav_trailer"):
+                    self.classes.add("wav_with_chunk_after_the_audio")
                 path, _kw, self.paths = c10.make_input(c, self.data)
                 self.src = RawAudioSource(path, sr, sw, ch) if self.kind == "raw" else WaveAudioSource(path)
             elif self.kind == "fifo":
@@ -320,7 +323,8 @@ def config_small(draw, kinds=KINDS):
                 N=draw(st.one_of(st.integers(0, 40), st.integers(0, 40), st.sampled_from([1400, 2100, 4096, 5000]))),
                 rawname=draw(st.sampled_from([".raw", ".pcm", "", ".bin"])),
                 salt=draw(st.integers(0, 10**6)),
-                chunks=draw(st.lists(st.integers(1, 13), min_size=1, max_size=4)))
+                chunks=draw(st.lists(st.integers(1, 13), min_size=1, max_size=4)),
+                wav_trailer=draw(st.booleans()))
 
 
 @st.composite
@@ -431,6 +435,9 @@ def explicit_cases():
         {"cfg": dict(cfg, kind="raw"), "ops": [["read", 1], ["open"], ["read", 5], ["read", 0], ["read", 20], ["read", 1], ["close"], ["read", 1]]},
         {"cfg": dict(cfg, kind="raw", N=2100, sw=4, ch=3, rawname=".pcm"), "ops": [["open"], ["read", 127], ["read", 333], ["read", 127], ["read", 1000], ["read", 1000], ["read", 5]]},
         {"cfg": dict(cfg, kind="wav"), "ops": [["open"], ["read", 11], ["read_all", -2], ["read_all", None], ["read", 3]]},
+        {"cfg": dict(cfg, kind="wav", wav_trailer=True), "ops": [["open"], ["read", 5], ["read_all", None], ["read", 3]]},
+        {"cfg": dict(cfg, kind="wav", wav_trailer=True, sw=1, ch=1, N=7), "ops": [["open"], ["read_all", -1], ["read_all", None]]},
+        {"cfg": dict(cfg, kind="wav", wav_trailer=True, sw=1, ch=3, N=5), "ops": [["open"], ["read", 2], ["read", 9], ["read", 1]]},
         {"cfg": dict(cfg, kind="stdin", sw=4), "ops": [["read", 1], ["open"], ["read", 5], ["read", 7], ["read", 1], ["read", 1]]},
         {"cfg": dict(cfg, kind="pipe", sw=4, ch=3, chunks=[5, 1, 7]), "ops": [["open"], ["read", 5], ["read", 6], ["read", 4], ["read", 1]]},
         {"cfg": dict(cfg, kind="fifo", sw=2, ch=3, N=30, chunks=[5]), "ops": [["read", 2], ["open"], ["read", 5], ["read", 0], ["read", 7], ["read", 40], ["read", 1]]},
